@@ -74,6 +74,7 @@ def marshal (h : Heap) : Nat → Val → Option String
     | .str s => some (jsonString s)
     | .host _ => some "{}"
     | .attrs _ => none
+    | .bblock _ => none
     | .arr a =>
       match (h.getArr a).mapM (marshal h fuel) with
       | none => none
